@@ -96,7 +96,7 @@ def build(cfgname, force=False, cov=False):
     for f in ("rt.cc", "driver.cc"):
         o = os.path.join(out, f.replace(".cc", ".o"))
         rtobjs.append(o)
-        jobs.append(["g++", "-O2", "-g", "-std=c++17", "-fno-omit-frame-pointer", "-Wall", "-Wno-unused-function",
+        jobs.append(["g++", "-O2", "-g", "-std=c++17", "-U_FORTIFY_SOURCE", "-D_FORTIFY_SOURCE=0", "-fno-omit-frame-pointer", "-Wall", "-Wno-unused-function",
                      '-DNSIM_CONFIG="%s"' % cfgname, "-I" + os.path.join(SIM, "rt"), "-c", os.path.join(SIM, "rt", f), "-o", o])
     with ThreadPoolExecutor(max_workers=16) as ex:
         list(ex.map(sh, jobs))
